@@ -63,6 +63,16 @@ func newHierarchicalHmm(pi Vector, tr Matrix, stateMap []int, edist []ScalarPdf,
 
 /* -------------------------------------------------------------------------- */
 
+func (obj *Hhmm) Clone() *Hhmm {
+  return &Hhmm{*obj.Hmm.Clone()}
+}
+
+func (obj *Hhmm) CloneVectorPdf() VectorPdf {
+  return obj.Clone()
+}
+
+/* -------------------------------------------------------------------------- */
+
 func (obj *Hhmm) ImportConfig(config ConfigDistribution, t ScalarType) error {
   hmm  := Hmm{}
   tree := generic.HmmNode{}
